@@ -53,6 +53,7 @@ use iceoryx2_cal::{
 use iceoryx2_cal::{event::Event, named_concept::NamedConceptBuilder};
 use iceoryx2_log::{debug, fail, warn};
 
+use crate::node::PortTag;
 use crate::service::SharedServiceState;
 use crate::service::resource::NoResource;
 use crate::{
@@ -324,7 +325,7 @@ pub struct Notifier<Service: service::Service> {
     // the struct.
     // Otherwise the process might crash during cleanup, has already removed the tag but other resources
     // are still existing. This would make a cleanup from another process impossible.
-    port_tag: Service::StaticStorage,
+    port_tag: PortTag<Service>,
 }
 
 unsafe impl<Service: service::Service> Send for Notifier<Service> where
@@ -346,7 +347,7 @@ impl<Service: service::Service> Abandonable for Notifier<Service> {
             ))
         };
         unsafe {
-            Service::StaticStorage::abandon_in_place(NonNull::from_mut(&mut this.port_tag));
+            PortTag::<Service>::abandon_in_place(NonNull::from_mut(&mut this.port_tag));
         }
     }
 }
